@@ -12,6 +12,7 @@
 #include <sstream>
 #include <string>
 #include <vector>
+#include <map>
 #include <tapkee/utils/fibonacci_heap.hpp>
 
 using namespace tapkee;
@@ -51,6 +52,35 @@ struct probe_heap : public fibonacci_heap
         if (nchild != t->rank) { os << "<rank" << t->rank << "!=" << nchild << ">"; return false; }
         os << ")";
         return true;
+    }
+    // ---- adaptive "thin tree" adversary (search phase only): looks at the structure to choose the
+    // next public operation; every operation it performs is printed so the history can be replayed.
+    int depth_of(fibonacci_heap_node* t) const { int d = 0; while (t->parent != NULL) { t = t->parent; d++; } return d; }
+    int max_root_rank() const
+    {
+        int best = 0;
+        if (min_root == NULL) return 0;
+        fibonacci_heap_node* r = min_root; int n = 0;
+        do { if (r->rank > best) best = r->rank; r = r->right; n++; } while (r != NULL && r != min_root && n <= max_num_nodes);
+        return best;
+    }
+    // policy 0: child of a marked non-root parent first, then deepest; 1: deepest; 2: random node of depth >= 2
+    int pick_victim(int policy, unsigned& rng) const
+    {
+        int best = -1; long best_score = -1;
+        for (int i = 0; i < max_num_nodes; i++)
+        {
+            fibonacci_heap_node* t = nodes[i];
+            if (t->index == -1 || t->parent == NULL || t->parent->parent == NULL) continue;
+            int d = depth_of(t);
+            rng = rng * 1103515245u + 12345u;
+            long score;
+            if (policy == 0) score = (t->parent->marked ? 1000000L : 0L) + d * 1000L + (long)((rng >> 16) % 1000u);
+            else if (policy == 1) score = d * 1000L + (long)((rng >> 16) % 1000u);
+            else score = (long)((rng >> 8) % 1000000u);
+            if (score > best_score) { best_score = score; best = i; }
+        }
+        return best;
     }
     std::string show()
     {
@@ -103,6 +133,58 @@ int main()
             continue;
         }
         if (cmd == "E") { printf("END\n"); fflush(stdout); continue; }
+        if (cmd == "A")
+        {
+            // A cap rounds seed policy: adaptive adversary on a fresh heap; prints "a <op>" per operation (flushed),
+            // "V <what>" when the public outputs disagree with a std::map reference, then "AEND maxrank dn".
+            int cap, rounds, policy; unsigned seed;
+            is >> cap >> rounds >> seed >> policy;
+            delete h;
+            h = new probe_heap(cap);
+            printf("C %ld\n", hist++);
+            printf("H %d %d\n", cap, h->dn());
+            std::map<int, double> ref;
+            double lo = 0;
+            bool bad = false;
+            int maxrank = 0;
+            for (int i = 0; i + 1 < cap; i++) { printf("a i %d %d\n", i, 1000 + i); h->insert(i, 1000 + i); ref[i] = 1000 + i; }
+            auto extract = [&]() {
+                printf("a x\n"); fflush(stdout);
+                ScalarType key = -12345; int r = h->extract_min(key);
+                double m = 1e300; for (auto& kv : ref) if (kv.second < m) m = kv.second;
+                if (ref.empty()) { if (r != -1) { printf("V extract on empty returned %d\n", r); bad = true; } }
+                else if (r == -1 || !ref.count(r) || ref[r] != key || key != m) { printf("V extract returned %d:%g, minimum is %g\n", r, (double)key, m); bad = true; }
+                if (r != -1) ref.erase(r);
+                if (h->get_num_nodes() != (int)ref.size()) { printf("V size %d vs %d\n", h->get_num_nodes(), (int)ref.size()); bad = true; }
+            };
+            extract();
+            for (int round = 0; round < rounds && !bad; round++)
+            {
+                int cuts = 0;
+                for (int c = 0; c < cap && !bad; c++)
+                {
+                    int v = h->pick_victim(policy, seed);
+                    if (v < 0) break;
+                    lo -= 1;
+                    printf("a d %d %lld\n", v, (long long)lo); fflush(stdout);
+                    h->decrease_key(v, lo); ref[v] = lo; cuts++;
+                    if ((seed >> 20) % 4u == 0) break;   // vary how many cuts happen between consolidations
+                }
+                // dummy minimum in and out: forces a consolidation
+                lo -= 1;
+                int dummy = cap - 1;
+                if (!ref.count(dummy)) { printf("a i %d %lld\n", dummy, (long long)lo); h->insert(dummy, lo); ref[dummy] = lo; }
+                extract();
+                int mr = h->max_root_rank(); if (mr > maxrank) maxrank = mr;
+                if (cuts == 0 && round > 4) break;
+            }
+            // drain: every stored index must come back in key order
+            for (int i = 0; i < cap + 2 && !bad && !ref.empty(); i++) extract();
+            printf("AEND %d %d %d\n", maxrank, h->dn(), bad ? 1 : 0);
+            fflush(stdout);
+            delete h; h = NULL;
+            continue;
+        }
         if (h == NULL) continue;
         if (cmd == "i") { long long i, k; is >> i >> k; h->insert((int)i, (ScalarType)k); }
         else if (cmd == "d") { long long i, k; is >> i >> k; ScalarType key = (ScalarType)k; h->decrease_key((int)i, key); }
